@@ -68,7 +68,7 @@ class SeqRef:
                 return (y + 1) & 15
             return y
         if k in ("sl2", "raw2", "idx2"):
-            src = self.vars[e[1]] if e[1] in self.vars else (self.inp[e[1]] if e[1] in self.inp else self.sig[e[1]])
+            src = T[e[1]] if (e[1] in T and isinstance(T[e[1]], int)) else self.vars[e[1]] if e[1] in self.vars else (self.inp[e[1]] if e[1] in self.inp else self.sig[e[1]])
             return (src >> e[2]) & 3
         if k == "bv":
             return self.bev(e[1], T)
